@@ -184,7 +184,7 @@ PROPS["C12"] = dict(
                "remove_pdr_final_once / update_pdr_final_once — hence a Remove / Update PDR the data plane accepts queries exactly the URRs that lose their last referring PDR, once each, in whatever "
                "order the map iteration takes (diassociateAll_ref by a loop invariant over the environment-chosen order); detach_last / detach_not_last / detach_at_zero_silent, remove_flags_termr, "
                "query_flags_immer for the flags; recreate_live_pdr_breaks — the negation for a Create PDR on a live id (known finding). "
-               "Session deletion (Lemmas/CoreDel.lean): deletion_final_once — after ANY such history (no freshness hypothesis) Sess.Close issues exactly one REMOVE_URR for every URR the session knows and none "
+               "urr_outlives_last_pdr — a Remove / Update PDR that takes a URR's last referring PDR away leaves the set of URRs the session knows unchanged (external predicate (d) checks the same on every table dump). Session deletion (Lemmas/CoreDel.lean): deletion_final_once — after ANY such history (no freshness hypothesis) Sess.Close issues exactly one REMOVE_URR for every URR the session knows and none "
                "for any other id, for every iteration order and answer stream (the URR table never holds an id twice: run_keys); deletion_all_termr — every report deletion hands back is flagged TERMR; close_allRemoved + deletion_response_once — the Session Deletion Response carries exactly one usage-report IE per URR that had anything to report, however many records the data plane returned for it. "
                "Tie: S-ctl 'urr' in lock-step, with two external predicates on the implementation's own output: (a) a URR that loses its last referring PDR in a request (as the accepted requests say) "
                "is queried exactly once and its reports come back flagged TERMR; (b) in every table dump the recorded count of each URR equals the number of PDRs whose recorded list names it.",
